@@ -328,6 +328,21 @@ def r31(ctx: Ctx) -> RuleReport:
             if not tested and via_reify is None:
                 continue
             key = f'{fi.module.name}:{fi.qualname}: {norm(a)}'
+            # the avoid-set must hold every variable of the graph before the first name is drawn
+            if fi.qualname in ('reify_edges', 'reify_attributes'):
+                inits = [x for x in ctx.cg.local_assigns(fi).get(S, []) if isinstance(x, ast.AST)]
+                from_graph = any(isinstance(y, ast.Call) and isinstance(y.func, ast.Attribute) and y.func.attr == 'variables' for x in inits for y in ast.walk(x))
+                own = [n for n in walk_local(fi.node) if isinstance(n, ast.Call) and isinstance(n.func, ast.Attribute) and n.func.attr == 'add'
+                       and norm(n.func.value) == S and n.args and isinstance(n.args[0], ast.Subscript) and try_fold(n.args[0].slice) == (True, 0)]
+                k2 = f'{fi.module.name}:{fi.qualname}: the set `{S}` of names to avoid holds all variables of the graph from the start'
+                if from_graph:
+                    rep.ok(k2, fi.loc(a), f'{S} = {norm(inits[0])[:40]}')
+                elif own:
+                    rep.violation(k2, fi.loc(own[0]), f'`{S}` starts as `{norm(inits[0])[:40] if inits else "?"}` and the graph\'s own variables are added one triple at a '
+                                  f'time (`{norm(own[0])}`) by the very loop that draws fresh names from it: a node named `_` that comes later in the '
+                                  f'triple list is not avoided, and the new node is merged with it')
+                else:
+                    rep.undecided(k2, fi.loc(a), f'{[norm(x)[:40] for x in inits]}')
             if tested:
                 states = may_unproven(cfg, {(f'{X} in {S}', False), (f'{X} not in {S}', True)}, {X})
                 nid = owner_node(cfg, pm, a)
@@ -936,9 +951,11 @@ def r38(ctx: Ctx) -> RuleReport:
             rep.violation(f'{fi.fq}: every target of a non-instance triple is recorded as referenced', fi.loc(n), d)
     closed = 'unknown' not in kinds and 'bad' not in kinds
     key = f'{fi.fq}: the set of fixed nodes contains the top'
+    # whatever else is unknown about a feed, an expression that never reads `.top` cannot put the top into the set
+    no_top_read = all('.top' not in norm(n) for _, n, _ in feeds) and all(not (isinstance(n, ast.Assign) and isinstance(n.targets[0], ast.Tuple)) for _, n, _ in feeds)
     if 'top' in kinds:
         rep.ok(key, fi.loc(), listing[:200])
-    elif closed:
+    elif closed or no_top_read:
         rep.violation(key, fi.loc(), f'everything that flows into `{fx}` is [{listing}]: the top is never among it unless it is also some edge\'s '
                       f'target, so a top node that looks like a reified relation is collapsed and the graph loses its top')
     else:
